@@ -782,19 +782,24 @@ Definition step (op : Z) (r : list Z) (s : ist) : cres ist :=
   end.
 End Step.
 
+(* the `while s.bytes_available()` loop; n bounds the number of iterations (every iteration
+   consumes at least one byte, so `length cs` is enough) *)
+Fixpoint loop (rec : Z -> list Z -> ist -> cres ist) (e : env) (depth : Z)
+         (n : nat) (b : list Z) (s : ist) {struct n} : cres ist :=
+  match b with
+  | [] => COk s
+  | op :: r =>
+    match n with
+    | O => CFuel
+    | S n' => step rec (loop rec e depth n') e depth op r s
+    end
+  end.
+
+(* visit_impl; df bounds the nesting of subroutine / seac activations *)
 Fixpoint run (df : nat) (e : env) (depth : Z) (cs : list Z) (s0 : ist) {struct df} : cres ist :=
   match df with
   | O => CFuel
-  | S df' =>
-    (fix loop (n : nat) (b : list Z) (s : ist) {struct n} : cres ist :=
-       match b with
-       | [] => COk s
-       | op :: r =>
-         match n with
-         | O => CFuel
-         | S n' => step (run df' e) (loop n') e depth op r s
-         end
-       end) (length cs) cs s0
+  | S df' => loop (run df' e) e depth (length cs) cs s0
   end.
 
 (* depth 0..STACK_LIMIT: 11 nested activations; one spare *)
